@@ -844,7 +844,7 @@ Rock::SwapDir::readCompleted(const char *, int rlen, int errflag, RefCount< ::Re
 }
 
 void
-Rock::SwapDir::writeCompleted(int errflag, size_t, RefCount< ::WriteRequest> r)
+Rock::SwapDir::writeCompleted(int errflag, size_t rlen, RefCount< ::WriteRequest> r)
 {
     // TODO: Move details into IoState::handleWriteCompletion() after figuring
     // out how to deal with map access. See readCompleted().
@@ -865,6 +865,8 @@ Rock::SwapDir::writeCompleted(int errflag, size_t, RefCount< ::WriteRequest> r)
 
     if (errflag != DISK_OK)
         handleWriteCompletionProblem(errflag, *request);
+    else if (rlen != request->len) // a short write left a partially written slot
+        handleWriteCompletionProblem(DISK_ERROR, *request);
     else if (!sio.expectedReply(request->id))
         handleWriteCompletionProblem(DISK_ERROR, *request);
     else
